@@ -31,6 +31,8 @@ REQUIRED = {'single-fill-with-ratio': 0.05, 'exact-unity': 0.2, 'deactivated-mol
 FUZZ = {'include': ['taurex.data.profiles.chemistry', 'taurex.util.util'], 'runs': 20000, 'workers': 4}
 
 AMU = 1.66053906892e-27
+IUPAC = {'H': 1.008, 'He': 4.002602, 'C': 12.011, 'N': 14.007, 'O': 15.999, 'Na': 22.98977, 'K': 39.0983, 'Ti': 47.867, 'V': 50.9415,
+         'S': 32.06, 'Ar': 39.948, 'Fe': 55.845, 'Ca': 40.078, 'Al': 26.98154, 'Mg': 24.305, 'Si': 28.085}
 FILL = ['H2', 'He', 'N2', 'Ar', 'CO2']
 TRACE = ['H2O', 'C10H8', 'CH4', 'CO', 'NH3', 'C4H10', 'HCN', 'C2H2', 'SO2', 'TiO', 'VO', 'Na', 'K', 'O2', 'NO', 'H2S', 'C12H26',
          'Ca(OH)2', 'Al2(SO4)3', '(CH3)2CO', 'Fe(CO)5', 'Ca(Al(OH)4)2', 'Mg[OH]2', 'C6H5(CH3)12', 'Na(OH)', 'H{CN}']
@@ -349,6 +351,15 @@ def check(case):
         if not close(mix[nf + j], p, rtol=1e-12, atol=1e-300):
             out.fail('traces-as-declared@%s' % case['traces'][j]['type'], 'row of %s is not its own profile' % allg[nf + j])
             break
+    # the element table itself, against standard atomic weights typed in here (IUPAC abridged values; the library's table
+    # is an older edition of the same numbers: agreement to 5e-4 is asked, a mistyped digit is 1e-3 or more)
+    out.applies('atomic-weights')
+    used = set()
+    for m in allg:
+        used.update(re.findall(r'[A-Z][a-z]?', m))
+    for el in sorted(used):
+        if el in IUPAC and not close(float(MASS[el]), IUPAC[el], rtol=5e-4):
+            out.fail('atomic-weights@' + el, 'table holds %r for %s, standard atomic weight %r' % (MASS[el], el, IUPAC[el]))
     out.applies('mean-molecular-weight')
     mu = np.zeros(nl)
     for i, m in enumerate(allg):
